@@ -567,7 +567,7 @@ NarrowCases ==
   \cup UNION {{PointCase("narrow", F, T, v) : T \in IntTypes, v \in {x \in BoundaryValues : Representable(x, F)}} : F \in IntTypes}
   \cup UNION {{PointCase("fhirconv", F, T, v) : T \in IntTypes, v \in {x \in BoundaryValues : Representable(x, BaseOf(F))}} : F \in FhirIntTypes}
   \cup (IF NarrowWide
-        THEN {c \in {RangeCase("narrow", F, T, ch[1], ch[2]) : F \in IntTypes, T \in {"int16", "uint16", "int8", "uint8"}, ch \in Chunks16} : c.lo <= c.hi}
+        THEN {c \in {RangeCase("narrow", F, T, ch[1], ch[2]) : F \in IntTypes, T \in {"int16", "uint16"}, ch \in Chunks16} : c.lo <= c.hi}
              \cup {c \in {RangeCase("fhirconv", F, T, ch[1], ch[2]) : F \in FhirIntTypes, T \in {"int16", "uint16"}, ch \in Chunks16} : c.lo <= c.hi}
         ELSE {})
 
